@@ -226,6 +226,7 @@ class FolderObservation(AbstractObservation, discriminator="folder"):
             self.default_observation["FILES"] = {i + 1: f.default_observation for i, f in enumerate(self.files)}
 
         self.cached_obs: Optional[ObsType] = self.default_observation
+        self._cached_uuid: Optional[str] = None  # which folder the cached health was read from
 
     def observe(self, state: Dict) -> ObsType:
         """
@@ -241,7 +242,10 @@ class FolderObservation(AbstractObservation, discriminator="folder"):
             return self.default_observation
 
         if self.file_system_requires_scan:
-            if not folder_state["scanned_this_step"]:
+            # the cached value belongs to the folder it was read from: a new folder of the same name (created after the old one
+            # was deleted) has never been scanned and must not inherit it
+            same_folder = self._cached_uuid is None or folder_state.get("uuid") == self._cached_uuid
+            if not folder_state["scanned_this_step"] and same_folder:
                 health_status = self.cached_obs["health_status"]
             else:
                 health_status = folder_state["visible_status"]
@@ -255,6 +259,7 @@ class FolderObservation(AbstractObservation, discriminator="folder"):
             obs["FILES"] = {i + 1: file.observe(state) for i, file in enumerate(self.files)}
 
         self.cached_obs = obs  # remember the last reported health until the next scan completes
+        self._cached_uuid = folder_state.get("uuid")
         return obs
 
     @property
